@@ -47,6 +47,33 @@ add('C03', 'exploration', 'shape-exhaustive + Hypothesis complete auctions: cont
     'doubles) are generated and shape-enumerated; contract() is compared at every prefix and at the end.',
     'Trusts vf/model/auction.py; doubling compared as status, not raw flags.', '5/C03')
 
+add('C04', 'exploration', 'Hypothesis-generated boards and single tricks against an independent law-of-play model',
+    'hypothesis-inprocess',
+    'Whole boards (generated deal, contract, 52 plays incl. revokes) are compared with the model after every card, '
+    'and single tricks on the hand-less phase cover every winner position x how-won class.',
+    'Trusts vf/model/play.py.', '5/C04')
+add('C05', 'fault_enumeration', 'fault injection at generated positions of generated boards; snapshot-unchanged + conservation oracle',
+    'hypothesis-inprocess',
+    'Every kind of inadmissible play (out of turn, card of another seat, card already played, after card 52) is '
+    'injected at generated positions on the table manager and on all four observers; refusal and unchanged state are '
+    'checked against deep snapshots, conservation after every accepted play.',
+    'Observers are only required to refuse what they can see (own hand, disclosed dummy, turn).', '5/C05')
+add('C06', 'exploration', 'Hypothesis hands x led card + reached board states against an independent follow-suit set',
+    'hypothesis-inprocess',
+    'Static hands of 1-13 cards x any led card, and every state of generated boards (own hand, dummy hand, all '
+    'observers), plus RandomPlay under seeds drawn by Hypothesis.',
+    'RandomPlay uses the global RNG, seeded from drawn integers.', '5/C06')
+add('C11', 'exploration', 'differential between five replicas in process; bundled clients vs server log in simulated sessions',
+    'hypothesis-inprocess+sim-sessions',
+    'Five replicas of the play state machine are compared after every card of generated boards; simulated sessions '
+    'compare each bundled client\'s view with the server\'s log.',
+    'Simulation kernel fidelity (DESIGN.md section 4).', '5/C11')
+add('C14', 'exploration', 'Hypothesis deals through four encoder/decoder round trips + independent canonical PBN renderer',
+    'hypothesis-inprocess',
+    'Generated full and partial deals x 4 first seats x 8 numpy dtypes; each encoding decoded back and the PBN text '
+    'compared with an independent renderer; random dealer under drawn seeds.',
+    'Trusts vf/model/pbn.py.', '5/C14')
+
 NOT_APPLICABLE = []
 
 ENGINES = [
